@@ -3,7 +3,7 @@ Require Import DS.Base DS.Utf8 DS.Strings DS.StringsProof DS.Codec.
 Require Import Zify.
 
 (* linear arithmetic with division and remainder by constants *)
-Ltac arith := zify; Z.div_mod_to_equations; lia.
+Ltac arith := zify; Z.to_euclidean_division_equations; lia.
 
 Lemma list_ind3 {A} (P : list A -> Prop) :
   P [] -> (forall x, P [x]) -> (forall x y, P [x; y]) ->
